@@ -263,6 +263,11 @@ def recover_only_differs(f):
     for o in outs:
         if 'crash' in o:
             return None, o
+        by = {v['action']: v for v in (o.get('verify') or [])}
+        a, b = by.get('RecoverAndVerify'), by.get('RecoverOnly')
+        if a and b and a['result'] == 'ok' and b['result'] == 'ok' and a['masks'] != b['masks']:
+            bad.append({'RecoverAndVerify': a['masks'], 'RecoverOnly': b['masks']})
+            continue
         for mi, per in enumerate(o.get('verify_each') or []):
             by = {v['action']: v for v in per or []}
             a, b = by.get('RecoverAndVerify'), by.get('RecoverOnly')
